@@ -142,7 +142,7 @@ def _run(mod, args, timer) -> int:
     distinct = 0
     runs = 0
     results = core.run_tasks(f"{mod.__name__}:run_task", tasks, mem_gib=getattr(mod, "MEM_GIB", 8.0),
-                             wall_s=getattr(mod, "WALL_S", {"quick": 900, "thorough": 6 * 3600})[tier])
+                             wall_s=getattr(mod, "WALL_S", {"quick": 900, "thorough": 6 * 3600})[tier], force_pool=True)
     for r in results:
         stats.merge(r.get("stats", {}))
         digests.append(r.get("digest", ""))
